@@ -259,8 +259,16 @@ func appAtInteresting(r *RunResult) bool {
 
 func init() {
 	RegisterProfile(fleetProfile("fleet-appsafe", "C03", FleetRun{
-		Gen:  swarmAppsafe,
-		Mons: func(f *Fleet) []Monitor { return []Monitor{&MonC03{}} },
+		Gen: swarmAppsafe,
+		Mons: func(f *Fleet) []Monitor {
+			if f.T.Chance("cfg-receive-only3", 150) {
+				// one instance only receives: its application's commits are
+				// as safe as anybody's
+				f.Nodes[len(f.Nodes)-1].Opt.ReceiveOnly = true
+				f.Sim.Logf("cfg receive-only=%s", f.Nodes[len(f.Nodes)-1].Name)
+			}
+			return []Monitor{&MonC03{}}
+		},
 		Post: func(f *Fleet, r *RunResult) {
 			m := f.Mon[0].(*MonC03)
 			r.Counts["ls_txns_checked"] = m.Checked
@@ -321,6 +329,7 @@ func init() {
 				c.Work.ExtraHdr = pick(t, "cfg-extra4", 300, 0, 700)
 				c.Work.DelPayload = pick(t, "cfg-delpayload", 0, 250, 600)
 			}
+			c.Work.BigVal = pick(t, "cfg-big4", 0, 100, 300) // values beyond the iterator's initial buffer
 			c.Padding = t.Choose("cfg-padding", 3) == 2
 			c.CrashRate = pick(t, "cfg-crash4", 0, 0, 10)
 			return c
@@ -1022,7 +1031,14 @@ func init() {
 			}
 			return c
 		},
-		Mons: func(f *Fleet) []Monitor { return []Monitor{&MonC11{}} },
+		Mons: func(f *Fleet) []Monitor {
+			if f.T.Chance("cfg-receive-only12", 150) {
+				// a receive-only instance mirrors its application's data too
+				f.Nodes[len(f.Nodes)-1].Opt.ReceiveOnly = true
+				f.Sim.Logf("cfg receive-only=%s", f.Nodes[len(f.Nodes)-1].Name)
+			}
+			return []Monitor{&MonC11{}}
+		},
 		Post: func(f *Fleet, r *RunResult) {
 			m := f.Mon[0].(*MonC11)
 			r.Counts["ls_txns_checked"] = m.Checked
